@@ -1,7 +1,7 @@
 import FuModel.Props.C04
 import FuModel.Props.C05
 import FuModel.Props.C18
-import FuModel.Proofs.PrintWalk
+import FuModel.Proofs.OutWalk
 
 /-!
 # C07 — -print0 paths are byte-exact and survive the pipe into xargs -0
@@ -118,23 +118,24 @@ open FuModel.Find.Walk
 /-- **Whole starting point**: `find [-P|-H|-L] START TEST -print0` (or `-print`, any prefix and
     terminator), for every tree, depth range, traversal order and test that only looks at the
     entry: the bytes written are exactly, in visit order, the printed paths of the in-range
-    reachable entries that satisfy the test — every such entry once, nothing else.  Ties C02
-    (which entries), C03 (order) and this property's per-entry theorem together over the real walk
-    (walkdir's iterator under `process_dir`); proof in `Proofs/PrintWalk.lean`. -/
-theorem C07_whole_walk (c : Config) (t : Prim) (ht : isTest t = true) (pre term : Bytes)
+    reachable entries that satisfy the test — every such entry once, nothing else — and the walk
+    is not stopped.  Ties C02 (which entries), C03 (order) and this property's per-entry theorem
+    together over the real walk (walkdir's iterator under `process_dir`); proof in
+    `Proofs/OutWalk.lean` (`processDir_out`, for every action that only writes). -/
+theorem C07_whole_walk (c : Config) (t : Prim) (ht : isTestP t = true) (pre term : Bytes)
     (start : Bytes) (root : Node Attr) (g : GS)
     (hH : (refCfg c).depthFirst = true → ¬ HRootLink (refCfg c) (if c.sorted then sortNode root else root)) :
     let n := if c.sorted then sortNode root else root
-    (processDir c (.and [.prim t, .prim (.pathOut pre term)]) start (some root) g).gs.out =
-      g.out ++ (visitsN (refCfg c) [] 0 n).flatMap (printed start t pre term) :=
-  whole_walk_print c t ht pre term start root g hH
+    let r := processDir c (.and [.prim t, .prim (.pathOut pre term)]) start (some root) g
+    r.gs.out = g.out ++ (visitsN (refCfg c) [] 0 n).flatMap (written start t (.pathOut pre term)) ∧ r.quit = false :=
+  processDir_out c t (.pathOut pre term) ht rfl start root g hH
 
 /-- non-vacuity: `find t -type f -print0` on a two-level tree (the reference side of the equation,
     evaluated by the kernel) -/
 example :
     let root : Node Attr := .dir [116] false true { lty := 'd', sty := 'd' }
       [.leaf [97] .plain { lty := 'f', sty := 'f' }, .dir [98] false true { lty := 'd', sty := 'd' } [.leaf [99] .plain { lty := 'f', sty := 'f' }]]
-    (visitsN (refCfg {}) [] 0 root).flatMap (printed [116] (.typeIs 'f') [] [0]) =
+    (visitsN (refCfg {}) [] 0 root).flatMap (written [116] (.typeIs 'f') (.pathOut [] [0])) =
       [116, 47, 97, 0, 116, 47, 98, 47, 99, 0] := by decide
 
 end FuModel.Find.Run
